@@ -28,6 +28,7 @@ def run_case(case):
         bor_s = g.get_cell_borders().tocoo()
         dis_s = g.get_center_distances().tocoo()
         area = np.asarray(g.get_spherical_voronoi().get_voronoi_volumes(), dtype=float)
+        area_grid_level = np.asarray(g.get_voronoi_volumes(), dtype=float)       # the same getter reached on the grid object
     except Exception as e:
         return {"violations": [viol(pre + "|raises", f"grid/geometry construction raised {type(e).__name__}: "
                                     f"{str(e)[:120]}", case, observed=type(e).__name__)], "pairs": 0, "adjacent": 0,
@@ -70,6 +71,9 @@ def run_case(case):
             i, j = np.argwhere(both & (np.abs(D - o["dist"]) > TOL))[0].tolist()
             vs.append(viol(pre + "|distance", f"distance of pair ({i},{j}) differs from the great-circle angle", case,
                            expected=float(o["dist"][i, j]), observed=float(D[i, j])))
+    if area_grid_level.shape != area.shape or not np.array_equal(area_grid_level, area):
+        vs.append(viol(pre + "|area_grid_level", "grid.get_voronoi_volumes() differs from the Voronoi object's areas", case,
+                       expected=float(area.sum()), observed=float(np.sum(area_grid_level))))
     if area.shape != (N,) or np.any(~(area > 0)):
         vs.append(viol(pre + "|area_positive", "areas must be N positive numbers", case, observed=area.tolist()[:10]))
     else:
